@@ -287,5 +287,5 @@ def eval_case(case):
 
 
 def main(args):
-    nruns, ncases = (128, 100) if args.tier == "quick" else (8000, 150)
+    nruns, ncases = (128, 100) if args.tier == "quick" else (3000, 150)
     return clockdrive.drive(__import__("checks.c10_strict", fromlist=["x"]), args, nruns, ncases, 10)
